@@ -3,6 +3,7 @@ import json, time
 from fractions import Fraction
 from core import build, exact, boundary
 from core.driver import Driver, DriverDied, DriverTimeout
+from core import multi
 from core.run import Acc, finish, rng_for, run_shards, NCPU
 
 PID = "C10"
@@ -71,12 +72,72 @@ def spell(rng, x):
         return t
     return "%d / %d" % (x.numerator, x.denominator)
 
+def lit_tree(rng, x):
+    t = dec_text(x)
+    if t is not None and len(t) < 60:
+        return ("lit", t, Fraction(x))
+    return ("bin", "/", exact.int_lit(x.numerator), exact.int_lit(x.denominator))
+
+def small_int_call(rng):
+    """A call (or arithmetic around a call) whose value is an integer in -6..6: the digits argument of round(x, n)."""
+    n = rng.randint(-6, 6)
+    fn = rng.choice(["floor", "ceil", "round"])
+    if fn == "floor":
+        y = Fraction(n) + Fraction(rng.randint(0, 99), 100)
+    elif fn == "ceil":
+        y = Fraction(n) - Fraction(rng.randint(0, 99), 100)
+    else:
+        y = Fraction(n) + Fraction(rng.randint(-49, 49), 100)
+        if y != 0 and (y > 0) != (n > 0) and n != 0:
+            y = Fraction(n)
+    t = ("call", fn, [lit_tree(rng, y)])
+    r = rng.random()
+    if r < 0.25:
+        k = rng.randint(-3, 3)
+        t = ("bin", "+", exact.int_lit(k), ("call", fn, [lit_tree(rng, y - k)])) if fn != "round" else ("bin", "+", t, exact.int_lit(0))
+    elif r < 0.35:
+        t = ("call", "round", [t, ("call", "floor", [lit_tree(rng, Fraction(rng.randint(0, 3)) + Fraction(1, 2))])])
+    return t
+
+def gen_composed(rng):
+    """Calls inside the arguments of calls, in the FIRST and in the LATER argument positions, with arithmetic around them:
+    round(x, floor(y)), round(floor(x) + y, 1 + ceil(z)), floor(round(x, 2) * 3) (seed C10-g: an argument stack shared by all calls
+    of a query is only wrong when a call is evaluated while an enclosing call has already collected an earlier argument)."""
+    def value(depth):
+        x = gen_x(rng)
+        if abs(x) > 10 ** 12:
+            x = Fraction(x.numerator % 10 ** 9, x.denominator) if x.denominator < 10 ** 12 else Fraction(7, 2)
+        t = lit_tree(rng, x)
+        if depth > 0 and rng.random() < 0.6:
+            fn = rng.choice(["floor", "ceil", "round", "round2"])
+            inner = value(depth - 1)
+            if fn == "round2":
+                n = small_int_call(rng) if rng.random() < 0.6 else exact.int_lit(rng.randint(-6, 6))
+                t = ("call", "round", [inner, n])
+            else:
+                t = ("call", fn, [inner])
+            if rng.random() < 0.4:
+                t = ("bin", rng.choice("+-*"), t, lit_tree(rng, Fraction(rng.randint(-999, 999), rng.choice([1, 2, 4, 8, 10, 100]))))
+        return t
+    outer = rng.choice(["floor", "ceil", "round", "round2", "round2", "round2"])
+    if outer == "round2":
+        return ("call", "round", [value(rng.randint(0, 2)), small_int_call(rng)])
+    return ("call", outer, [value(rng.randint(1, 2))])
+
 def shard(p):
     acc = Acc()
     rng = rng_for(p["seed"], PID, p["shard"])
     cases = []
     pending = []
     for _ in range(p["n"]):
+        if rng.random() < 0.06:
+            t = gen_composed(rng)
+            try:
+                want = exact.ev(t)
+            except Exception:
+                continue
+            cases.append((exact.render(t, "min"), None, want, "composed"))
+            continue
         if pending:
             x, forced = pending.pop()
         else:
@@ -130,6 +191,18 @@ def shard(p):
                     if len(items) != 1 or "err" not in items[0]:
                         acc.violate("c10:arity-accepted:" + fname, "%s has a wrong number of arguments but gave %s" % (q, items), case)
                     continue
+                if meta == "composed":
+                    acc.count("composed_calls(call inside an argument of a call)")
+                    if q.count("(") >= 3 and "," in q:
+                        acc.count("composed_with_a_call_in_the_digits_argument")
+                    acc.nontriv(q)
+                    if len(items) != 1 or "ok" not in items[0]:
+                        acc.violate("c10:no-value:composed", "%s should be %s but gave %s (%s)" % (q, want, items, kind), case)
+                    else:
+                        got = Fraction(int(items[0]["ok"]["v"][0]), int(items[0]["ok"]["v"][1]))
+                        if got != want:
+                            acc.violate("c10:wrong-value:composed", "%s gave %s, the defined value is %s (%s)" % (q, got, want, kind), case)
+                    continue
                 x, unit, n = meta
                 if x.denominator != 1 or x < 0 or unit or n:
                     acc.nontriv(q)
@@ -154,6 +227,8 @@ def shard(p):
                     acc.inconc("argument %r alone did not evaluate: %s" % (arg, aitems))
                 if kind == p["builds"][0]:
                     acc.sample({"query": q, "expected": str(want), "observed": items[0]["ok"]}, cap=1)
+            qs = [q for q, _, w, _ in cases if w != "error"]
+            multi.stage(acc, d, rng.sample(qs, min(len(qs), 300)), rng, 300, PID, kind)
         finally:
             d.close()
     return acc
